@@ -225,6 +225,12 @@ def check_floyd(ctx: Ctx):
         n = n.loop
     nest.reverse()
     ctx.ob("C11-O5", "R19 LOOP-NEST-ROLE", f, "intermediate vertex is bound by the outermost of the three loops", ok and k1 == k2 and len(nest) == 3 and nest[0] == k1 and {nest[1], nest[2]} == {i_, j_}, f"loop nest {nest}, relaxation `{ast.unparse(t)}`", node=relax[0])
+    ranges = []
+    n = cfg.stmt_node_containing(t).loop
+    while n is not None:
+        ranges.append(ast.unparse(n.ast.iter) if n.kind == "for" else "?")
+        n = n.loop
+    ctx.ob("C11-O5", "R19 LOOP-NEST-ROLE", f, "every ordered pair (i, j), the diagonal included, is relaxed for every intermediate vertex", ranges == ["range(n)"] * 3, f"loop ranges (innermost first) {ranges}: the negative-cycle verdict reads dist[i][i], so a cell range that skips the diagonal (or any ordered pair) leaves the verdict and the distances unrelaxed", node=relax[0])
     ok2 = ast.unparse(t.comparators[0]) == f"dist[{i_}][{j_}]" and isinstance(t.ops[0], ast.Lt) and any(ast.unparse(s) == f"dist[{i_}][{j_}] = dist[{i_}][{k1}] + dist[{k1}][{j_}]" for s in relax[0].body)
     ctx.ob("C11-O5", "R19 LOOP-NEST-ROLE", f, "relaxation compares and stores the same cell", ok2, "", node=relax[0])
     loops = [x for x in own_nodes(f.node) if isinstance(x, ast.For) and x in ast.walk(f.node) and ast.unparse(x.iter) in ("range(n)",)]
@@ -393,6 +399,16 @@ def _t_reformat(tree):
     pass
 
 
+def _v_fw_upper_triangle(tree):
+    g = M.find_func(tree, "floyd_warshall")
+    loops = [n for n in ast.walk(g) if isinstance(n, ast.For) and M.src_is(n.target, "j") and M.src_is(n.iter, "range(n)")]
+    inner = [l for l in loops if any(isinstance(x, ast.If) and M.src_has(x.test, "dist[i][k] + dist[k][j]") for x in ast.walk(l))]
+    if not inner:
+        raise M.Skip("relaxation loop over j not found")
+    inner[0].iter = M.expr("range(0 if directed else i + 1, n)")
+    M.replace_stmt(inner[0], lambda s: M.src_is(s, "dist[i][j] = dist[i][k] + dist[k][j]"), lambda s: [s] + M.stmts("if not directed:\n    dist[j][i] = dist[i][j]"))
+
+
 def _t_fw_swap_ij(tree):
     g = M.find_func(tree, "floyd_warshall")
     outer = [s for s in g.body if isinstance(s, ast.For) and M.src_is(s.target, "k")][0]
@@ -427,5 +443,6 @@ VARIANTS = [
     M.Variant("twin: reformat dijkstra", DJ, _t_reformat, None),
     M.Variant("twin: reformat a_star", AS, _t_reformat, None),
     M.Variant("twin: reformat bfs", BS, _t_reformat, None),
+    M.Variant("floyd_warshall relaxes only the cells above the diagonal when undirected (seed C11-C)", FW, _v_fw_upper_triangle, "C11-O5"),
     M.Variant("twin: floyd_warshall i/j loops swapped", FW, _t_fw_swap_ij, None),
 ]
